@@ -158,6 +158,13 @@ func (e *Env) eval(x ast.Expr) Value {
 			return S(Not(e.term(x.X)))
 		case token.SUB:
 			return S(Sub(IntLit(0), e.term(x.X)))
+		case token.AND:
+			if id, ok := x.X.(*ast.Ident); ok && e.F != nil {
+				if v, ok := e.F.Vars[id.Name]; ok && e.F.VarAddr[id.Name] {
+					return v
+				}
+			}
+			evalErr("& of something that is not an addressable local")
 		}
 		evalErr("unsupported unary %s", x.Op)
 	case *ast.StarExpr:
@@ -265,6 +272,9 @@ func (e *Env) evalBinary(x *ast.BinaryExpr) Value {
 	a, b := e.toTerm(l), e.toTerm(r)
 	switch x.Op {
 	case token.ADD:
+		if a.Sort == SString {
+			return S(App("str.++", SString, a, b))
+		}
 		return S(Add(a, b))
 	case token.SUB:
 		return S(Sub(a, b))
@@ -288,6 +298,11 @@ func ghostSort(t string) string {
 	t = strings.TrimSpace(t)
 	switch {
 	case t == "int" || t == "ref" || t == "error" || t == "any":
+		return SInt
+	case t == "string":
+		if StringTheory {
+			return SString
+		}
 		return SInt
 	case t == "bool":
 		return SBool
@@ -327,6 +342,9 @@ func (e *Env) boundVar(name string, typ ast.Expr) (Value, *Term) {
 	switch tn {
 	case "int", "ref", "error", "any":
 		a := Atom("q_"+name, SInt)
+		return S(a), a
+	case "string":
+		a := Atom("q_"+name, sortOfType(types.Typ[types.String]))
 		return S(a), a
 	case "bool":
 		a := Atom("q_"+name, SBool)
@@ -485,6 +503,35 @@ func (e *Env) evalCall(x *ast.CallExpr) Value {
 			sort = t.Sort
 		}
 		return S(Select(e.S.heapComp(name, sort), e.term(args[1])))
+	case "pure":
+		// pure("canonical callee name", args...): the uninterpreted function
+		// that models a pure external function
+		if len(args) < 1 {
+			evalErr("pure wants a name")
+		}
+		a0 := args[0]
+		for {
+			pe, isP := a0.(*ast.ParenExpr)
+			if !isP {
+				break
+			}
+			a0 = pe.X
+		}
+		lit, ok := a0.(*ast.BasicLit)
+		if !ok {
+			evalErr("pure wants a string literal")
+		}
+		name, _ := strconv.Unquote(lit.Value)
+		var ts []*Term
+		var sorts []string
+		for _, a := range args[1:] {
+			t := e.term(a)
+			ts = append(ts, t)
+			sorts = append(sorts, t.Sort)
+		}
+		fname := "pure." + sanitize(name) + ".0"
+		e.S.X.Ctx.DeclareFunc(fname, sorts, SInt)
+		return S(App(fname, SInt, ts...))
 	case "evcount":
 		// evcount("kind", "name"): number of matching events on the path
 		need(2)
